@@ -113,6 +113,27 @@ class Session:
     pass
 
 
+import contextlib
+
+@contextlib.asynccontextmanager
+async def serve_and_watch(handler, settings, key, out, sim):
+    """prudp.serve, spelled out so that the server stream's client table can be observed (white-box read only)"""
+    out.table_max = 0
+    out.table_end = None
+    async with prudp.serve_transport(settings, SERVER[0], SERVER[1]) as transport:
+        async with transport.serve(handler, 1, 10, key):
+            stream = transport.ports.get(1, 10)
+            def on_rx(tx):
+                # sampled at every datagram arrival (before it is processed) and at the end
+                out.table_max = max(out.table_max, len(stream.clients))
+            sim.net.on_rx = on_rx
+            try:
+                yield
+            finally:
+                out.table_max = max(out.table_max, len(stream.clients))
+                out.table_end = len(stream.clients)
+
+
 def run_session(cfg, seed, script, fate_factory, phases_gap=None, yield_on_send=False, max_time=600.0, end_order="client-first",
                 cfg_s=None, creds_fn=None, setup=None, server_key=b"server key"):
     """cfg_s: the server's configuration when it differs from the client's; creds_fn(settings, rng, sim) -> (credentials, session key)
@@ -230,7 +251,7 @@ def run_session(cfg, seed, script, fate_factory, phases_gap=None, yield_on_send=
         out.epoch = sim.epoch
 
         async def main():
-            async with prudp.serve(handler, ss, SERVER[0], SERVER[1], key=server_key if (cfg_s or cfg).credentials else None):
+            async with serve_and_watch(handler, ss, server_key if (cfg_s or cfg).credentials else None, out, sim):
                 try:
                     sim.net.log.append(("app", sim.now(), "c", "connect", 0, b""))
                     async with prudp.connect(s, SERVER[0], SERVER[1], credentials=creds) as client:
